@@ -256,6 +256,8 @@ func runC10(c *Ctx) {
 	}
 	// "bad cipher in any service fails the reload": no key is skipped before it was validated unless it is a true duplicate
 	ruleDedup(c, a)
+	// "serves exactly the new configuration": each service of the new generation is built from its own entry's keys
+	ruleBind(c, a)
 	ruleManagerKeys(c, "MANAGERKEYS")
 	ruleRegister(c, "REGISTER") // every listener of the stopped generation is closed: none was overwritten in the bookkeeping
 	// a mutex of the listener bookkeeping left locked on an error path makes the cleanup of the failed generation — and with
